@@ -1,6 +1,7 @@
 package props
 
 import (
+	"encoding/json"
 	"fmt"
 	"os"
 	"strings"
@@ -56,3 +57,5 @@ func try(f func()) (panicked string) {
 	f()
 	return ""
 }
+
+func jsonUnmarshal(b []byte, v interface{}) error { return json.Unmarshal(b, v) }
